@@ -36,10 +36,10 @@ type yProd struct {
 }
 
 type yGrammar struct {
-	Prods   []yProd // index = production number (0 = $accept)
-	Types   map[string]string // non-terminal / token → union field
-	Tokens  map[string]bool
-	Start   string
+	Prods  []yProd           // index = production number (0 = $accept)
+	Types  map[string]string // non-terminal / token → union field
+	Tokens map[string]bool
+	Start  string
 }
 
 // parseYacc reads the shape of a goyacc grammar: declarations, rules, alternatives (actions are skipped by brace
@@ -241,11 +241,11 @@ func parseYacc(src string) (*yGrammar, error) {
 
 // compiledParser holds what the compiled parser.go says.
 type compiledParser struct {
-	R1, R2   []int64
-	Assigns  map[int]map[string]bool // production → yyVAL fields assigned
-	Reads    map[int][]dollarRead
-	Windows  map[int][2]string // production → (low expr, high expr) of the yyDollar slice
-	CasePos  map[int]token.Pos
+	R1, R2    []int64
+	Assigns   map[int]map[string]bool // production → yyVAL fields assigned
+	Reads     map[int][]dollarRead
+	Windows   map[int][2]string // production → (low expr, high expr) of the yyDollar slice
+	CasePos   map[int]token.Pos
 	FuncCalls map[int][]string // production → functions (not type conversions, not builtins) called by its action
 }
 
@@ -596,7 +596,10 @@ func runGram1(c *Ctx) {
 		}
 		return "", false
 	}
-	type failure struct{ e int; f string }
+	type failure struct {
+		e int
+		f string
+	}
 	reported := map[failure]bool{}
 	var prods []int
 	for n := range cp.Reads {
@@ -664,6 +667,22 @@ func runGram3(c *Ctx) {
 				if al, ok := mi.X.(*ssa.Alloc); ok && al.Parent() == parse {
 					okLexer = true
 					yyparse = callee
+				}
+				// … or the result of a constructor that allocates on every call
+				if call, ok := mi.X.(*ssa.Call); ok && call.Call.StaticCallee() != nil && p.InModule(call.Call.StaticCallee()) {
+					ctor := call.Call.StaticCallee()
+					rets := returnsOf(ctor)
+					all := len(rets) > 0
+					for _, r := range rets {
+						al, isAl := stripConv(r.Results[0]).(*ssa.Alloc)
+						if len(r.Results) != 1 || !isAl || !al.Heap {
+							all = false
+						}
+					}
+					if all {
+						okLexer = true
+						yyparse = callee
+					}
 				}
 			}
 		}
